@@ -201,8 +201,9 @@ type vNode struct {
 	labels  *vLabels
 	// open brackets per goroutine (innermost last)
 	open map[int64][]*vOpen
-	// merge context per goroutine: remote state of the entry being merged
+	// merge context per goroutine: remote state of the entry being merged, and its line
 	mergeKind map[int64]string
+	mergeLine map[int64]*vLine
 	inEvent   int32
 }
 
@@ -309,7 +310,7 @@ func (s *vSink) now() int64 { return time.Since(s.epoch).Milliseconds() }
 func (s *vSink) register(m *Memberlist, cfg vCfg, allow []string, vetoMeta string, labels *vLabels) *vNode {
 	s.mu.Lock()
 	defer s.mu.Unlock()
-	n := &vNode{m: m, name: m.config.Name, cfg: cfg, open: map[int64][]*vOpen{}, mergeKind: map[int64]string{},
+	n := &vNode{m: m, name: m.config.Name, cfg: cfg, open: map[int64][]*vOpen{}, mergeKind: map[int64]string{}, mergeLine: map[int64]*vLine{},
 		vetoMeta: vetoMeta, labels: labels}
 	if cfg.AllowOn {
 		n.allow = []netip.Prefix{}
@@ -513,6 +514,20 @@ func (s *vSink) selfState(n *vNode) string {
 
 func (s *vSink) hook(m *Memberlist, ev string, kv ...any) {
 	gid := vGoid()
+	// a push/pull entry is announced outside the node lock: take the snapshot of the
+	// subject's record first (lock order: nodeLock before the sink's mutex)
+	var mergePre *nodeState
+	var mergeInc uint32
+	if ev == "merge.entry" {
+		r := kv[0].(pushNodeState)
+		m.nodeLock.RLock()
+		if st, ok := m.nodeMap[r.Name]; ok {
+			cp := *st
+			mergePre = &cp
+		}
+		mergeInc = m.incarnation.Load()
+		m.nodeLock.RUnlock()
+	}
 	s.mu.Lock()
 	defer s.mu.Unlock()
 	n, ok := s.nodes[m]
@@ -566,6 +581,9 @@ func (s *vSink) hook(m *Memberlist, ev string, kv ...any) {
 		if v := n.top(gid); v != nil && v.kind == "udpalive" {
 			v.nodeOps++
 			l.Via = "udp"
+		}
+		if ml, ok := n.mergeLine[gid]; ok {
+			ml.NodeOps++
 		}
 		l.Pre = s.recOf(n, l.Claim.Node)
 		l.Tpre = s.timerOf(n, l.Claim.Node)
@@ -658,8 +676,41 @@ func (s *vSink) hook(m *Memberlist, ev string, kv ...any) {
 		}
 
 	case "merge.entry":
-		n.mergeKind[gid] = vStateName(NodeStateType(kv[1].(int)))
+		if ml, ok := n.mergeLine[gid]; ok {
+			s.emit(ml)
+		}
+		r := kv[0].(pushNodeState)
+		kind := vStateName(r.State)
+		n.mergeKind[gid] = kind
+		l := vBlankLine("MergeEntry")
+		l.N, l.T = n.name, s.now()
+		l.Via = "merge"
+		l.Op = map[string]string{"alive": "alive", "left": "dead", "dead": "suspect", "suspect": "suspect"}[kind]
+		l.Claim = vClaim{Node: r.Name, Inc: int64(r.Incarnation), Addr: n.addrStr(r.Addr), Port: int(r.Port),
+			Meta: n.metaStr(r.Meta), Vsn: vInts(r.Vsn), Kind: kind}
+		if kind == "left" {
+			l.Claim.From = r.Name
+		} else if kind != "alive" {
+			l.Claim.From = n.name
+		}
+		l.Allowed = n.allowed(r.Addr)
+		l.Filtered = kind == "alive" && (vBadVsn(r.Vsn) || (n.cfg.AliveDelegate && (len(r.Vsn) < 6 || (n.vetoMeta != "" && string(r.Meta) == n.vetoMeta))))
+		if mergePre != nil {
+			st := mergePre
+			l.Pre = vRec{State: vStateName(st.State), Inc: int64(st.Incarnation), Addr: n.addrStr(st.Addr), Port: int(st.Port),
+				Meta: n.metaStr(st.Meta), Vsn: []int{int(st.PMin), int(st.PMax), int(st.PCur), int(st.DMin), int(st.DMax), int(st.DCur)},
+				Changed: s.ms(st.StateChange)}
+		}
+		l.IncPre = int64(mergeInc)
+		l.Leave = m.leave.Load() == 1
+		l.Created = n.created
+		l.Cfg = n.cfg
+		n.mergeLine[gid] = l
 	case "merge.done":
+		if ml, ok := n.mergeLine[gid]; ok {
+			s.emit(ml)
+			delete(n.mergeLine, gid)
+		}
 		delete(n.mergeKind, gid)
 
 	case "udpalive.begin":
